@@ -35,16 +35,29 @@ def run(tier):
             res.inst(f.rule, f.desc)
         else:
             res.violate(f.rule, f.where, f.construct, f.msg, file=f.file, line=f.line)
-    # R5: registration stores the validator under the claim's key, replacing an earlier one
-    r5 = Result("C16", "other")
-    _validators.plumbing(r5, "C16", facts)
-    for v in r5.violations:
-        res.violate("C16.R5", v.where, v.construct, v.msg, file=v.file, line=v.line)
-    for d in r5.instances.get("C16.R1", []):
-        res.inst("C16.R5", d)
-    res.obligations += r5.obligations
-    res.discharged += r5.discharged
-    extend(res, facts)
+    # R5: registration stores the validator under the claim's key, replacing an earlier one, and keeps every other registered validator:
+    # decided by abstract interpretation of the registration functions from every combination of earlier entries (rules/claims_sem.py);
+    # the structural rules only where that is undecided
+    from .. import claims_sem
+    sem5 = [f for f in claims_sem.registration_contracts(facts) if f.rule == "C16.R5"]
+    for f in sem5:
+        if f.ok is None:
+            continue
+        res.oblige(f.ok)
+        if f.ok:
+            res.inst(f.rule, f.desc)
+        else:
+            res.violate(f.rule, f.where, f.construct, f.msg, file=f.file, line=f.line)
+    if not sem5 or any(f.ok is None for f in sem5):
+        r5 = Result("C16", "other")
+        _validators.plumbing(r5, "C16", facts)
+        for v in r5.violations:
+            res.violate("C16.R5", v.where, v.construct, v.msg, file=v.file, line=v.line)
+        for d in r5.instances.get("C16.R1", []):
+            res.inst("C16.R5", d)
+        res.obligations += r5.obligations
+        res.discharged += r5.discharged
+        extend(res, facts)
     # R7: the key a validator is registered (and later invoked) under is the claim's get_key(): every constructor of the typed claims -
     # in particular the Default placeholders documented for validate_claim - builds the claim under its registered key (C14.R1's table)
     from . import c14
